@@ -50,8 +50,21 @@ func (e *Engine) yIsZero(t types.Type, v Value) bool {
 	case *types.Interface:
 		return v.(iface).t == nil
 	case *types.Basic:
-		if isSym(v) {
-			e.abort(abortEngine, "yaml omitempty on a symbolic scalar")
+		if t0, ok := v.(*smt.Term); ok {
+			// decide emptiness by forking
+			var z *smt.Term
+			switch t0.S.K {
+			case smt.KBool:
+				z = e.ctx.Not(t0)
+			case smt.KBV:
+				z = e.ctx.Eq(t0, e.ctx.BVConst(t0.S.W, 0))
+			default:
+				z = e.ctx.FEq(t0, e.ctx.FPConst(0))
+			}
+			return e.branch(e.lowerBool(z))
+		}
+		if ss, ok := v.(*SymStr); ok {
+			return len(ss.b) == 0
 		}
 		switch x := v.(type) {
 		case string:
